@@ -2,7 +2,7 @@
 # apply a seeded change to /repo, run the named checks (quick), revert. usage: runmut.sh <seeded-dir> <Cxx>...
 D=$1; shift
 cd /verif
-git -C /repo apply $D/patch.diff || { echo "patch does not apply"; exit 2; }
+git -C /repo apply $(realpath $D)/patch.diff || { echo "patch does not apply"; exit 2; }
 for p in "$@"; do
   out=$(./check $p --tier quick 2>/dev/null | grep -E "^(OK|VIOLATION|KNOWN|cannot)" | cut -c1-260)
   echo "[$(basename $D) -> $p] $out"
